@@ -4,6 +4,7 @@
 import VotelibModel.StvFile
 import Mathlib.Data.List.Nodup
 import Mathlib.Algebra.Order.Ring.Rat
+import Mathlib.Tactic.Linarith
 namespace VL.StvFile
 open VL
 set_option linter.unusedSimpArgs false
@@ -155,6 +156,76 @@ theorem loadVotes_lines (nicks : List String) (hn : nicks.Nodup) (n : Nat) :
           (by simp at hlen; omega)]
       simp
 
+/-! ### nicknames are pairwise different -/
+theorem letterOf_inj : ∀ a : Fin 26, ∀ b : Fin 26, letterOf a.val = letterOf b.val → a = b := by decide
+
+theorem letterOf_mod (i : Nat) : letterOf (i % 26) = letterOf i := by simp [letterOf]
+
+theorem ordinalNick_inj : ∀ (k i j : Nat), i < 26 ^ k → j < 26 ^ k → ordinalNick k i = ordinalNick k j → i = j
+  | 0, i, j, hi, hj, _ => by simp at hi hj; omega
+  | k + 1, i, j, hi, hj, h => by
+      simp only [ordinalNick, List.cons.injEq] at h
+      obtain ⟨h1, h2⟩ := h
+      have hm : i % 26 = j % 26 := by
+        have := letterOf_inj ⟨i % 26, Nat.mod_lt _ (by norm_num)⟩ ⟨j % 26, Nat.mod_lt _ (by norm_num)⟩
+          (by simp only [letterOf_mod]; exact h1)
+        exact Fin.mk.inj_iff.1 this
+      have hd : i / 26 = j / 26 :=
+        ordinalNick_inj k (i / 26) (j / 26) (by rw [Nat.div_lt_iff_lt_mul (by norm_num)]; rw [pow_succ] at hi; exact hi)
+          (by rw [Nat.div_lt_iff_lt_mul (by norm_num)]; rw [pow_succ] at hj; exact hj) h2
+      have := Nat.div_add_mod i 26
+      have := Nat.div_add_mod j 26
+      omega
+
+theorem nLettersFrom_spec (n : Nat) : ∀ (fuel k : Nat), n ≤ 26 ^ (k + fuel) → n ≤ 26 ^ (nLettersFrom n fuel k)
+  | 0, k, h => by simpa [nLettersFrom] using h
+  | fuel + 1, k, h => by
+      simp only [nLettersFrom]
+      split
+      · assumption
+      · exact nLettersFrom_spec n fuel (k + 1) (by rw [show k + 1 + fuel = k + (fuel + 1) by omega]; exact h)
+
+theorem nLetters_spec (n : Nat) : n ≤ 26 ^ (nLetters n) := by
+  unfold nLetters
+  apply nLettersFrom_spec
+  simp only [Nat.zero_add]
+  exact le_of_lt (Nat.lt_pow_self (by norm_num))
+
+theorem ordinalNicks_nodup (n : Nat) : (ordinalNicks n).Nodup := by
+  unfold ordinalNicks
+  refine List.Nodup.map_on ?_ List.nodup_range
+  intro i hi j hj h
+  have hi' : i < n := List.mem_range.1 hi
+  have hj' : j < n := List.mem_range.1 hj
+  have hs := nLetters_spec n
+  exact ordinalNick_inj (nLetters n) i j (by omega) (by omega) (String.ofList_injective h)
+
+theorem hasDupFrom_nodup : ∀ (l seen : List String), hasDupFrom l seen = false → seen.Nodup → (seen ++ l).Nodup
+  | [], seen, _, hs => by simpa using hs
+  | s :: t, seen, h, hs => by
+      simp only [hasDupFrom] at h
+      split at h
+      · simp at h
+      · rename_i hnot
+        have := hasDupFrom_nodup t (seen ++ [s]) h (by
+          rw [List.nodup_append]
+          refine ⟨hs, by simp, ?_⟩
+          intro a ha b hb
+          simp at hb
+          subst hb
+          intro e; subst e; exact hnot ha)
+        simpa [List.append_assoc] using this
+
+/-- the nicknames `_candidate_nicks` assigns are always pairwise different -/
+theorem candidateNicks_nodup (initials : List String) : (candidateNicks initials).Nodup := by
+  unfold candidateNicks
+  split
+  · exact ordinalNicks_nodup _
+  · rename_i h
+    have := hasDupFrom_nodup initials [] (by simpa using h) List.nodup_nil
+    simpa using this
+
+
 theorem ordinalNicks_length (n : Nat) : (ordinalNicks n).length = n := by simp [ordinalNicks]
 
 theorem candidateNicks_length (l : List String) : (candidateNicks l).length = l.length := by
@@ -178,7 +249,8 @@ theorem zip_map_fst_of_length {α β} : ∀ (a : List α) (b : List β), a.lengt
 theorem load_dump (d : Doc Weight) (h : wfStv d = true) :
     loadStv (dumpStv d).1 (dumpStv d).2 = .ok (eraseDoc d, d.cands.map (fun c => (c.1, c.2.1))) := by
   simp only [wfStv, Bool.and_eq_true, decide_eq_true_eq, List.all_eq_true] at h
-  obtain ⟨⟨⟨hnd, _⟩, hall⟩, hbn⟩ := h
+  obtain ⟨⟨_, hall⟩, hbn⟩ := h
+  have hnd := candidateNicks_nodup (d.cands.map (·.2.2))
   have hlen : (candidateNicks (d.cands.map (·.2.2))).length = d.cands.length := by
     rw [candidateNicks_length]; simp
   have hzs : (d.cands.zip (candidateNicks (d.cands.map (·.2.2)))).map (·.2) = candidateNicks (d.cands.map (·.2.2)) :=
